@@ -64,10 +64,22 @@ let schema_of_transport (mark : string) (dump : string) : schema =
       sch_types = List.filter keep b.sch_types @ s.sch_types }
   | _ -> failwith "transport mark"
 
+(* number of build errors: when the AST of the source is given (no syntax error), the literal model of
+   SchemaBuilder (Schema/Build.v, default configuration, real built-in initial state) decides; otherwise the
+   count reported by the implementation (syntax errors are the parser's business, C05) *)
+let nbuild_of (nbuild : string) (ast : string) : int =
+  if ast = "-" then int_of_string nbuild
+  else
+    match sb_build_docs (Lib_schemabuild.cfg_of "-") (Lazy.force Lib_schemabuild.builtin) [Lib_ast.document_of_string ast] with
+    | SbPanic -> failwith "builder model panicked"
+    | SbBuilt (_, errs) -> List.length errs
+
 let c14_validate (line : string) : string =
   match String.split_on_char ' ' line with
   | [_src; nbuild; mark; dump] ->
     verdict_line sv_apollo_params (int_of_string nbuild) (schema_of_transport mark dump)
+  | [_src; nbuild; mark; dump; ast] ->
+    verdict_line sv_apollo_params (nbuild_of nbuild ast) (schema_of_transport mark dump)
   | _ -> failwith "c14_validate line"
 
 (* `<flags> <hex source> <number of build errors> <schema dump>`: the verdict under other parameters *)
@@ -75,6 +87,8 @@ let c14_validate_params (line : string) : string =
   match String.split_on_char ' ' line with
   | [flags; _src; nbuild; mark; dump] ->
     verdict_line (params_of flags) (int_of_string nbuild) (schema_of_transport mark dump)
+  | [flags; _src; nbuild; mark; dump; ast] ->
+    verdict_line (params_of flags) (nbuild_of nbuild ast) (schema_of_transport mark dump)
   | _ -> failwith "c14_validate_params line"
 
 (* the literal models of apollo's two cycle searches (Schema/Cycles.v) on every input object / directive
@@ -82,7 +96,7 @@ let c14_validate_params (line : string) : string =
    returns Recursed, `deep=` some search hits the recursion limit *)
 let c14_cycles (line : string) : string =
   match String.split_on_char ' ' line with
-  | [_src; _nbuild; mark; dump] ->
+  | _src :: _nbuild :: mark :: dump :: _ ->
     let s = schema_of_transport mark dump in
     let ri = ref false and rd = ref false and deep = ref false in
     let note flag r = (match r with
